@@ -282,7 +282,8 @@ func c04R1(c *Ctx) {
 
 func c04R2(c *Ctx) {
 	const R = "C04.R2.single-owner"
-	c.Expect(R, 4)
+	c.Expect(R, 5)
+	c04ClaimMapAppendOnly(c, R)
 	TC := c.P.Fn("internal/status", "Tracker.TryCommit")
 	if TC == nil {
 		c.LostAnchor(R, nTryCommit)
@@ -371,6 +372,129 @@ func c04R2(c *Ctx) {
 	if n == 0 {
 		c.LostAnchor(R, "a traversal claiming its node with TryCommit(param)")
 	}
+}
+
+// c04ClaimMapAppendOnly: the tracker's claim map (its sync.Map field, or a module wrapper type around a sync.Map) only
+// ever grows during a copy call: anywhere in the module only Load / LoadOrStore / Range are applied to it, and the field is
+// never replaced.  Deleting or overwriting an entry lets a second goroutine win TryCommit for a node that was already
+// claimed, i.e. the node is transferred twice.
+func c04ClaimMapAppendOnly(c *Ctx, R string) {
+	TR := c.P.Named("internal/status", "Tracker")
+	if TR == nil {
+		c.LostAnchor(R, "~/internal/status.Tracker")
+		return
+	}
+	isSyncMap := func(t types.Type) bool {
+		n, ok := t.(*types.Named)
+		return ok && n.Obj().Pkg() != nil && n.Obj().Pkg().Path() == "sync" && n.Obj().Name() == "Map"
+	}
+	st, _ := TR.Underlying().(*types.Struct)
+	var claim *types.Var    // the Tracker field holding the claims
+	var inner *types.Var    // for a wrapper type: its sync.Map field
+	var wrapper *types.Named
+	for i := 0; st != nil && i < st.NumFields(); i++ {
+		ft := derefType(st.Field(i).Type())
+		if isSyncMap(ft) {
+			claim = st.Field(i)
+			continue
+		}
+		if n, ok := ft.(*types.Named); ok && n.Obj().Pkg() != nil && strings.HasPrefix(n.Obj().Pkg().Path(), Mod) {
+			if isSyncMap(n.Underlying()) {
+				claim, wrapper = st.Field(i), n
+			} else if ws, isStruct := n.Underlying().(*types.Struct); isStruct {
+				for j := 0; j < ws.NumFields(); j++ {
+					if isSyncMap(derefType(ws.Field(j).Type())) {
+						claim, wrapper, inner = st.Field(i), n, ws.Field(j)
+					}
+				}
+			}
+		}
+	}
+	if claim == nil {
+		c.Undecided(R, "~/internal/status.Tracker|claim-map-append-only", token.NoPos, "the tracker has no sync.Map (or module wrapper of one) field: the claim store is not the confirmed kind")
+		return
+	}
+	allowed := map[string]bool{"Load": true, "LoadOrStore": true, "Range": true}
+	opOf := func(call ssa.CallInstruction) string {
+		n := CalleeName(call)
+		if !strings.HasPrefix(n, "(*sync.Map).") {
+			return ""
+		}
+		return strings.TrimPrefix(n, "(*sync.Map).")
+	}
+	// the disallowed operations a wrapper method applies to its inner map (transitively through the wrapper's methods)
+	badOps := map[*ssa.Function][]string{}
+	if wrapper != nil {
+		for _, f := range c01ModuleFuncs(c.P) {
+			if f.Signature.Recv() == nil || derefType(f.Signature.Recv().Type()) == nil {
+				continue
+			}
+			rn, _ := derefType(f.Signature.Recv().Type()).(*types.Named)
+			if rn == nil || rn.Origin() != wrapper.Origin() {
+				continue
+			}
+			for _, call := range Calls(f, func(string) bool { return true }) {
+				if op := opOf(call); op != "" && !allowed[op] {
+					_ = inner
+					badOps[f] = append(badOps[f], op)
+				}
+			}
+		}
+		for changed := true; changed; {
+			changed = false
+			for f := range badOps {
+				_ = f
+			}
+			for _, f := range c01ModuleFuncs(c.P) {
+				if len(badOps[f]) > 0 || f.Signature.Recv() == nil {
+					continue
+				}
+				for _, call := range Calls(f, func(string) bool { return true }) {
+					if g := StaticCallee(call); g != nil && len(badOps[g]) > 0 && len(call.Common().Args) > 0 && c01ParamOf(call.Common().Args[0]) != nil {
+						badOps[f] = append(badOps[f], badOps[g]...)
+						changed = true
+						break
+					}
+				}
+			}
+		}
+	}
+	onClaim := func(v ssa.Value) bool { // v is the address (or value) of the Tracker's claim field
+		for _, r := range Roots(v) {
+			if p, ok := c01AddrPath(r); ok && p.last() == claim {
+				return true
+			}
+			if p, ok := c01ValuePath(r); ok && p.last() == claim {
+				return true
+			}
+		}
+		return false
+	}
+	bad, pos := "", token.NoPos
+	for _, f := range c01ModuleFuncs(c.P) {
+		AllInstrs(f, func(in ssa.Instruction) {
+			switch x := in.(type) {
+			case *ssa.Store:
+				if p, ok := c01AddrPath(x.Addr); ok && p.last() == claim && bad == "" {
+					bad, pos = FnName(f)+" replaces the claim map", x.Pos()
+				}
+			case ssa.CallInstruction:
+				args := x.Common().Args
+				if len(args) == 0 || !onClaim(args[0]) {
+					return
+				}
+				if op := opOf(x); op != "" && !allowed[op] && bad == "" {
+					bad, pos = FnName(f)+" applies sync.Map."+op+" to the claim map", x.Pos()
+				}
+				if g := StaticCallee(x); g != nil && len(badOps[g]) > 0 && bad == "" {
+					bad, pos = FnName(f)+" calls "+FnName(g)+" (sync.Map."+badOps[g][0]+") on the claim map", x.Pos()
+				}
+			}
+		})
+	}
+	c.Check(R, "~/internal/status.Tracker|claim-map-append-only", pos, bad == "",
+		ifelse(bad == "", "only Load / LoadOrStore / Range are ever applied to the tracker's claim map, and it is never replaced",
+			bad+": a claimed node can be claimed again during the same copy call, so it is transferred (PreCopy, Fetch, Push) twice"))
 }
 
 // c04IsEffect: calls that touch storage, user callbacks, dispatch, or other
@@ -543,6 +667,11 @@ func c04R3(c *Ctx) {
 		}
 		if why == "" && !okPos {
 			why = "a non-positive Concurrency reaches semaphore.NewWeighted without being replaced by the default (a zero-weight semaphore blocks every copy)"
+			for _, st := range c04FieldStores(F, conc) {
+				if mx, isCall := strip(st.Val).(*ssa.Call); isCall && CalleeName(mx) == "builtin:max" {
+					why = "the size is max(Concurrency, k): a positive Concurrency below k is raised to k, so more than Concurrency copy tasks run at once (max is not a default for non-positive values)"
+				}
+			}
 		}
 		// with a limiter parameter: only when none was handed in
 		for _, p := range F.Params {
@@ -666,7 +795,11 @@ func c04Positive(v ssa.Value, bind map[*ssa.Parameter]ssa.Value, depth int, stri
 	}
 	switch CalleeName(call) {
 	case "builtin:max":
-		// max(x, c): at least the largest constant operand
+		// max(x, c): at least the largest constant operand.  As the final size this is only a clamp at zero inside
+		// cmp.Or (non-strict use); max(x, k>=1) would also raise a positive x below k, which is not a default.
+		if strict {
+			return false
+		}
 		for _, a := range call.Call.Args {
 			if c04Positive(a, bind, depth+1, strict) {
 				return true
@@ -1693,6 +1826,10 @@ func instrLabelOr(in ssa.Instruction) string {
 }
 
 var c04Mutants = []Mutant{
+	{Name: "concurrency-floor-instead-of-default", File: "extendedcopy.go",
+		Old: "\tif opts.Concurrency <= 0 {\n\t\topts.Concurrency = defaultConcurrency\n\t}\n\tlimiter := semaphore.NewWeighted", New: "\topts.Concurrency = max(opts.Concurrency, defaultConcurrency)\n\tlimiter := semaphore.NewWeighted", Expect: "C04.R3.limiter-per-call|~.ExtendedCopyGraph"},
+	{Name: "tracker-forgets-failed-node", File: "internal/status/tracker.go",
+		Old: "\tstatus, exists := t.status.LoadOrStore(key, make(chan struct{}))\n\treturn status.(chan struct{}), !exists\n}\n", New: "\tstatus, exists := t.status.LoadOrStore(key, make(chan struct{}))\n\treturn status.(chan struct{}), !exists\n}\n\n// Forget drops the record of target.\nfunc (t *Tracker) Forget(target ocispec.Descriptor) {\n\tt.status.Delete(descriptor.FromOCI(target))\n}\n", Expect: "C04.R2.single-owner|~/internal/status.Tracker|claim-map-append-only"},
 	{Name: "skipped-hook-told-about-root", File: "copy.go",
 		Old: "\t\t\tif onCopySkipped != nil {\n\t\t\t\treturn onCopySkipped(ctx, desc)\n\t\t\t}\n\t\t\treturn nil", New: "\t\t\tif onCopySkipped != nil {\n\t\t\t\treturn onCopySkipped(ctx, root)\n\t\t\t}\n\t\t\treturn nil", Expect: "C04.R5.wrapper-forwards-own-arguments|~.prepareCopy$OnCopySkipped"},
 	{Name: "postcopy-hook-gets-background-ctx", File: "copy.go",
